@@ -390,6 +390,7 @@ async fn peer_attempt(w: Arc<World>, mut conn: ServerConn, a: Attempt, cookie: S
         Ok(f) => f,
         Err(_) => return,
     };
+    let new_format = name.first() == Some(&b'N');
     log.lock().unwrap().raw_frames.push(name);
 
     let status_frame: Vec<u8> = match a.status.as_str() {
@@ -457,12 +458,14 @@ async fn peer_attempt(w: Arc<World>, mut conn: ServerConn, a: Attempt, cookie: S
     if a.ack == "early" {
         let _ = conn.write.write_all(&wire::frame2(&wire::hs_ack(&wire::digest(&cookie, a.peer_challenge)))).await;
     }
-    // complement and reply
-    let comp = match read_frame2(&mut conn.read).await {
-        Ok(f) => f,
-        Err(_) => return,
-    };
-    log.lock().unwrap().raw_frames.push(comp);
+    // complement (only after an old-layout name) and reply
+    if !new_format {
+        let comp = match read_frame2(&mut conn.read).await {
+            Ok(f) => f,
+            Err(_) => return,
+        };
+        log.lock().unwrap().raw_frames.push(comp);
+    }
     let reply = match read_frame2(&mut conn.read).await {
         Ok(f) => f,
         Err(_) => return,
@@ -511,28 +514,36 @@ async fn peer_attempt(w: Arc<World>, mut conn: ServerConn, a: Attempt, cookie: S
 }
 
 fn check_client_frames(w: &Arc<World>, p: &Plan, a: &Attempt, l: &PeerLog) {
-    // send_name: 'n' 0005 flags32 name
+    // send_name: either 'n' 0005 flags32 name (+ complement 'c' flagsHigh32 creation32 later)
+    // or 'N' flags64 creation32 nlen16 name (and then no complement)
+    let mut reply_index = 2;
     if let Some(f) = l.raw_frames.first() {
-        match wire::parse_old_name(f) {
+        match wire::parse_send_name(f) {
+            Ok(n) if n.new_format => {
+                reply_index = 1;
+                if n.flags != p.local_flags || n.creation != Some(p.creation) || n.name != p.local_name.as_bytes() {
+                    w.violation("name-layout", format!("send_name 'N' carries flags {:#x} creation {:?} name {} bytes; expected {:#x}, {}, {:?}", n.flags, n.creation, n.name.len(), p.local_flags, p.creation, p.local_name));
+                }
+            }
             Ok(n) => {
-                if n.version != 5 || n.flags_low != p.local_flags as u32 || n.name != p.local_name.as_bytes() {
-                    w.violation("name-layout", format!("send_name carries version {} flags {:#x} name {} bytes; expected 5, {:#x}, {:?}", n.version, n.flags_low, n.name.len(), p.local_flags as u32, p.local_name));
+                if n.flags != u64::from(p.local_flags as u32) || n.name != p.local_name.as_bytes() {
+                    w.violation("name-layout", format!("send_name carries version 5 flags {:#x} name {} bytes; expected 5, {:#x}, {:?}", n.flags, n.name.len(), p.local_flags as u32, p.local_name));
+                }
+                if let Some(f) = l.raw_frames.get(1) {
+                    match wire::parse_complement(f) {
+                        Ok((hi, cr)) => {
+                            if hi != (p.local_flags >> 32) as u32 || cr != p.creation {
+                                w.violation("complement-layout", format!("complement carries flagsHigh {:#x} creation {}; expected {:#x}, {}", hi, cr, (p.local_flags >> 32) as u32, p.creation));
+                            }
+                        }
+                        Err(e) => w.violation("complement-layout", e),
+                    }
                 }
             }
             Err(e) => w.violation("name-layout", e),
         }
     }
-    if let Some(f) = l.raw_frames.get(1) {
-        match wire::parse_complement(f) {
-            Ok((hi, cr)) => {
-                if hi != (p.local_flags >> 32) as u32 || cr != p.creation {
-                    w.violation("complement-layout", format!("complement carries flagsHigh {:#x} creation {}; expected {:#x}, {}", hi, cr, (p.local_flags >> 32) as u32, p.creation));
-                }
-            }
-            Err(e) => w.violation("complement-layout", e),
-        }
-    }
-    if let Some(f) = l.raw_frames.get(2) {
+    if let Some(f) = l.raw_frames.get(reply_index) {
         match wire::parse_reply(f) {
             Ok((_c, d)) => {
                 if (a.challenge == "valid" || a.challenge == "twice") && d != wire::digest(&p.cookie, a.peer_challenge) {
@@ -747,7 +758,12 @@ fn api_history(w: &Arc<World>, p: &Plan) {
                     let body = &bytes[2..];
                     let ok = bytes.len() >= 2
                         && usize::from(u16::from_be_bytes([bytes[0], bytes[1]])) == body.len()
-                        && wire::parse_old_name(body).map(|n| n.version == 5 && n.flags_low == p.local_flags as u32 && n.name == p.local_name.as_bytes()).unwrap_or(false);
+                        && wire::parse_send_name(body)
+                            .map(|n| {
+                                n.name == p.local_name.as_bytes()
+                                    && if n.new_format { n.flags == p.local_flags && n.creation == Some(p.creation) } else { n.flags == u64::from(p.local_flags as u32) }
+                            })
+                            .unwrap_or(false);
                     if !ok {
                         w.violation("name-layout", format!("prepare_send_name produced {}", wire::hex(bytes)));
                     }
